@@ -8,6 +8,7 @@ import (
 	"strconv"
 	"strings"
 	"testing"
+	"time"
 
 	"github.com/jdillenkofer/pithos/internal/storage"
 	"github.com/jdillenkofer/pithos/verif/mc/ev"
@@ -45,6 +46,10 @@ func c12Alphabet(m *sx.Model, stack string) []sx.Op {
 		sx.Op{Kind: "Put", B: "bka", K: "k1", Body: "a", Opt: map[string]string{"ct": "text/a", "meta": "m=1"}},
 		sx.Op{Kind: "Delete", B: "bka", K: "k1"},
 	)
+	if stack == world.StackNamed || stack == world.StackNamedSQL {
+		// an object whose storage class lives in the non-default part store
+		ops = append(ops, sx.Op{Kind: "Put", B: "bka", K: "k1", Body: "b", Opt: map[string]string{"class": "GLACIER"}})
+	}
 	sortOps(ops)
 	return ops
 }
@@ -69,11 +74,11 @@ func orNever(s string) string {
 }
 
 var c12Menus = map[string][]string{
-	"3appends":           {"append:x", "append:y", "append:z"},
-	"2appends+put":       {"append:x", "append:y", "put:Q"},
-	"2appends+delete":    {"append:x", "append:y", "delete"},
-	"offset+offset":      {"appendat:1:x", "appendat:1:y", "append:z"},
-	"offset+append+put":  {"appendat:1:x", "append:y", "put:Q"},
+	"3appends":          {"append:x", "append:y", "append:z"},
+	"2appends+put":      {"append:x", "append:y", "put:Q"},
+	"2appends+delete":   {"append:x", "append:y", "delete"},
+	"offset+offset":     {"appendat:1:x", "appendat:1:y", "append:z"},
+	"offset+append+put": {"appendat:1:x", "append:y", "put:Q"},
 }
 
 // append-register: state "-" = absent, else "=" + content
@@ -203,7 +208,18 @@ func TestC12(t *testing.T) {
 		s.Depth = 5
 		s.Stacks = []string{world.StackSQL, world.StackFS, world.StackNamed}
 	}
+	s.Until = time.Now().Add(time.Until(run.Deadline()) * 35 / 100) // the sequential parts may use half of the budget
 	s.Explore()
+	// storage-class routed part stores: appends to an object of the cold class
+	named := &sx.Search{Run: run, TestRun: "^TestWorker$", Stacks: []string{world.StackNamed}, Spec: sx.SpecByName("C12"), Depth: 2,
+		Seeds: [][]sx.Op{{{Kind: "CreateBucket", B: "bka"}, {Kind: "Put", B: "bka", K: "k1", Body: "b", Opt: map[string]string{"class": "GLACIER"}}}}}
+	if !quick() {
+		named.Depth = 4
+		named.Stacks = []string{world.StackNamed, world.StackNamedSQL}
+	}
+	named.Until = time.Now().Add(time.Until(run.Deadline()) * 25 / 100)
+	named.Explore()
+	s.Merge(named)
 	s.Coverage()
 	tot := &schedTotals{}
 	var names []string
